@@ -7,6 +7,7 @@ import (
 	"go/types"
 	"golang.org/x/tools/go/cfg"
 	"golang.org/x/tools/go/packages"
+	"os"
 	"sort"
 	"strings"
 )
@@ -140,8 +141,13 @@ func ruleDescriptorImmutable(w *World, r *Report, rule string) {
 				switch {
 				case !isParamOrRecv(s.fi, info, o) && freshExprIn(s.fi, id, 2):
 					ok, why = true, "the descriptor is fresh in the writing function"
+				case !isParamOrRecv(s.fi, info, o) && isDesc(o.Type()) && !isPointerType(o.Type()) && s.fi.Decl.Body.Pos() <= o.Pos() && o.Pos() < s.fi.Decl.Body.End():
+					// a local of the struct type itself (clone := *d): the write changes the copy
+					ok, why = true, "the write goes to a local copy of the descriptor"
 				case isParamOrRecv(s.fi, info, o) && in:
 					ok, why = true, "the function runs only as part of a registration, on the descriptor it is handed"
+				case freshDescriptor(w, s.fi, id, 3, isDesc):
+					ok, why = true, "every call path hands this function a descriptor that was built for the call (a literal, a copy)"
 				}
 			}
 		}
@@ -180,15 +186,92 @@ func isParamOrRecv(fi *FuncInfo, info *types.Info, o types.Object) bool {
 }
 
 // ruleEveryExportedMethodChecksDisposed: R-ENTRY for methods the fixed list does
-// not name. Every exported method of *scope / *provider that does anything with
-// the container (a call into the repository, or a dynamic call) tests its own
-// disposed flag first and answers with its own sentinel; pure accessors are
+// not name. An exported method of *scope / *provider that can reach the core of
+// the container - resolution, construction, storing, scope creation, the
+// invoker, a dynamic call - or that writes a field of its receiver, tests its own
+// disposed flag before any of that and answers with its own sentinel. Read-only
+// queries (the registry, counters, the flag itself) and pure accessors are
 // recorded. Close is the subject of the close rules.
 func ruleEveryExportedMethodChecksDisposed(w *World, r *Report, rule string) {
+	ro := resolveRoles(w)
 	listed := map[string]bool{"Get": true, "GetKeyed": true, "GetGroup": true, "CreateScope": true, "Close": true}
+	core := map[*FuncInfo]bool{}
+	for _, f := range []*FuncInfo{ro.resolve, ro.resolveTop, ro.createInstance, ro.createEntry, ro.setInstance, ro.setSingleton, ro.newScope, ro.allocScope, ro.runInits, ro.createAll} {
+		if f != nil {
+			core[f] = true
+		}
+	}
+	for c := range ro.creators {
+		if t := w.Decls[c]; t != nil {
+			core[t] = true
+		}
+	}
+	isOwner := func(f *types.Func) string {
+		if rn := recvNamed(f); rn != nil && rn.Obj().Pkg() == w.Godi.Types && (rn.Obj().Name() == "scope" || rn.Obj().Name() == "provider") {
+			return rn.Obj().Name()
+		}
+		return ""
+	}
+	curOwner := ""
+	var reaches func(fi *FuncInfo, depth int, seen map[*FuncInfo]bool) string
+	reaches = func(fi *FuncInfo, depth int, seen map[*FuncInfo]bool) string {
+		if seen[fi] {
+			return ""
+		}
+		seen[fi] = true
+		info := fi.Pkg.TypesInfo
+		why := ""
+		for _, c := range callsIn(fi.Decl.Body, true) {
+			cal := callee(info, c)
+			if cal == nil {
+				if id, isId := unparen(c.Fun).(*ast.Ident); isId {
+					if _, isB := info.Uses[id].(*types.Builtin); isB {
+						continue
+					}
+				}
+				// a dynamic call: through a function value that is not a local literal or a parameter of a repository-only helper
+				if _, isLit := unparen(c.Fun).(*ast.FuncLit); !isLit {
+					if id, isId := unparen(c.Fun).(*ast.Ident); !isId || info.Uses[id] == nil || !isLocalFuncValue(info, fi, id) {
+						if tv, ok := info.Types[c.Fun]; !ok || !tv.IsType() {
+							why = "a call through the function value " + exprStr(c.Fun)
+						}
+					}
+				}
+				continue
+			}
+			if cal.Pkg() != nil && cal.Pkg().Path() == "reflect" && (cal.Name() == "Call" || cal.Name() == "CallSlice") {
+				why = "reflect.Value.Call"
+			}
+			if rn := recvNamed(cal); rn != nil && rn.Obj().Pkg() != nil && rn.Obj().Pkg() == w.Refl.Types {
+				switch rn.Obj().Name() {
+				case "ConstructorInvoker", "ParamObjectBuilder", "ResultObjectProcessor":
+					why = "the invoker (" + cal.Name() + ")"
+				}
+			}
+			t := w.Decls[cal]
+			if t == nil {
+				continue
+			}
+			if core[t] {
+				why = t.Name()
+				continue
+			}
+			if depth > 0 && (!cal.Exported() || isOwner(cal) != "") && !listed[cal.Name()] {
+				if sub := reaches(t, depth-1, seen); sub != "" {
+					why = sub + " (through " + t.Name() + ")"
+				}
+			}
+			// an exported entry point of the other owner (p.rootScope.Get): resolution all the same
+			if cal.Exported() && isOwner(cal) != "" && isOwner(cal) != curOwner && listed[cal.Name()] && cal.Name() != "Close" {
+				why = t.Name()
+			}
+		}
+		return why
+	}
 	for _, owner := range []string{"scope", "provider"} {
 		sentinel := map[string]string{"scope": "ErrScopeDisposed", "provider": "ErrProviderDisposed"}[owner]
 		flag := w.Field(w.Godi, owner, "disposed")
+		named, _ := w.Struct(w.Godi, owner)
 		for _, fi := range w.FuncsOf(w.Godi) {
 			rn := recvNamed(fi.Obj)
 			if rn == nil || rn.Obj().Name() != owner || !fi.Obj.Exported() || listed[fi.Obj.Name()] || fi.Decl.Body == nil {
@@ -203,19 +286,85 @@ func ruleEveryExportedMethodChecksDisposed(w *World, r *Report, rule string) {
 				}
 				body = t
 			}
+			curOwner = owner
+			why := reaches(body, 3, map[*FuncInfo]bool{})
+			// writes a field of the receiver's struct (directly or in a private helper)
+			if why == "" && named != nil {
+				for _, f := range w.Within(body, 2) {
+					for _, a := range collectAccessesIn(w, f, func(v *types.Var) bool { return ownerOfFieldRaw(w, v) == owner && !isSyncType(v.Type()) }) {
+						if a.IsWrite() && a.Kind != "addr" {
+							why = "a write to " + owner + "." + a.Field.Name()
+						}
+					}
+				}
+			}
+			if why == "" {
+				r.OK(rule, con, fi.Decl.Pos(), false, "read-only: reaches neither resolution, construction, storing, scope creation nor a dynamic call, and writes no field of the %s", owner)
+				continue
+			}
 			res := analyseEntryWith(w, body, flag, sentinel, 2, true)
 			switch {
-			case res.pure && !res.sawTest:
-				r.OK(rule, con, fi.Decl.Pos(), false, "accessor: no call into the repository, no dynamic call")
 			case res.bad != "":
-				r.Fail(rule, con, fi.Decl.Pos(), "%s: %s (every exported method of %s that uses the container must refuse a closed one with %s)", fi.Name(), res.bad, owner, sentinel)
+				r.Fail(rule, con, fi.Decl.Pos(), "%s reaches %s; %s (every exported method of %s that uses the container must refuse a closed one with %s)", fi.Name(), why, res.bad, owner, sentinel)
 			case !res.sawTest:
-				r.Fail(rule, con, fi.Decl.Pos(), "%s uses the container and never tests its own disposed flag: on a closed %s it works, or fails with another object's error, instead of %s", fi.Name(), owner, sentinel)
+				r.Fail(rule, con, fi.Decl.Pos(), "%s reaches %s and never tests its own disposed flag: on a closed %s it works, or fails with another object's error, instead of %s", fi.Name(), why, owner, sentinel)
 			default:
-				r.OK(rule, con, fi.Decl.Pos(), true, "atomic load of %s.disposed dominates every use of the container; its set edge returns %s", owner, sentinel)
+				r.OK(rule, con, fi.Decl.Pos(), true, "reaches %s; the atomic load of %s.disposed dominates every use of the container and its set edge returns %s", why, owner, sentinel)
 			}
 		}
 	}
+}
+
+// isLocalFuncValue: id names a function literal bound in fi, or a parameter of an unexported function.
+func isLocalFuncValue(info *types.Info, fi *FuncInfo, id *ast.Ident) bool {
+	o := info.Uses[id]
+	if o == nil {
+		return false
+	}
+	if isParamOf(fi, info, o) && !fi.Obj.Exported() {
+		return true
+	}
+	bound := false
+	ast.Inspect(fi.Decl.Body, func(x ast.Node) bool {
+		if as, ok := x.(*ast.AssignStmt); ok && len(as.Lhs) == len(as.Rhs) {
+			for i, l := range as.Lhs {
+				if objOf(info, l) == o {
+					if _, isLit := unparen(as.Rhs[i]).(*ast.FuncLit); isLit {
+						bound = true
+					}
+				}
+			}
+		}
+		return true
+	})
+	return bound
+}
+
+// collectAccessesIn: collectAccesses restricted to one function.
+func collectAccessesIn(w *World, fi *FuncInfo, want func(*types.Var) bool) []*Access {
+	var out []*Access
+	for _, a := range collectAccessesCached(w, want) {
+		if fi.Decl.Pos() <= a.Pos() && a.Pos() < fi.Decl.End() {
+			out = append(out, a)
+		}
+	}
+	return out
+}
+
+var accessCache []*Access
+
+// collectAccessesCached: all field accesses of the repository (computed once), filtered.
+func collectAccessesCached(w *World, want func(*types.Var) bool) []*Access {
+	if accessCache == nil {
+		accessCache = collectAccesses(w, nil, func(*types.Var) bool { return true })
+	}
+	var out []*Access
+	for _, a := range accessCache {
+		if want(a.Field) {
+			out = append(out, a)
+		}
+	}
+	return out
 }
 
 // ruleStoresOnlyCreated: what a scope stores - and therefore tracks for disposal -
@@ -832,39 +981,7 @@ func ruleNoInPlaceOnShared(w *World, r *Report, rule string) {
 	for _, p := range pkgs {
 		for _, fi := range w.FuncsOf(p) {
 			info := fi.Pkg.TypesInfo
-			fresh := func(e ast.Expr) bool {
-				e = resolveLocal(info, fi.Decl.Body, e, 3)
-				if ok, _ := freshDepth(info, fi, e, 2); ok {
-					return true
-				}
-				if c, isC := e.(*ast.CallExpr); isC {
-					if id, isId := unparen(c.Fun).(*ast.Ident); isId && id.Name == "append" && len(c.Args) > 0 {
-						a0 := unparen(c.Args[0])
-						if isNilIdent(info, a0) {
-							return true
-						}
-						if cc, ok := a0.(*ast.CallExpr); ok {
-							if tv, ok := info.Types[cc.Fun]; ok && tv.IsType() {
-								return true // []T(nil)
-							}
-							if ok, _ := freshCall(info, cc, 0, 2); ok {
-								return true
-							}
-						}
-						if _, ok := a0.(*ast.CompositeLit); ok {
-							return true
-						}
-					}
-					cal := callee(info, c)
-					if isFunc(cal, "slices", "", "Collect") || isFunc(cal, "slices", "", "Sorted") || isFunc(cal, "slices", "", "AppendSeq") || isFunc(cal, "maps", "", "Keys") {
-						return true
-					}
-				}
-				if _, ok := e.(*ast.CompositeLit); ok {
-					return true
-				}
-				return false
-			}
+			fresh := func(e ast.Expr) bool { return freshSliceExpr(w, fi, e, 2) }
 			k := 0
 			report := func(pos token.Pos, op string, operand ast.Expr, assignedBack bool) {
 				sites++
@@ -1540,4 +1657,419 @@ func ruleConstructedIsStored(w *World, r *Report, rule string) {
 	} else if bad == 0 {
 		r.OK(rule, ro.createInstance.Name()+"#constructed-is-stored", ro.createInstance.Decl.Pos(), false, "%d calls of setInstance in the creation chain: the stored variable is never reassigned from a call on its own previous value", n)
 	}
+}
+
+// freshDescriptor: e (an expression of fi) denotes a descriptor - or a list of
+// descriptors - that was built for this call: a literal, the address of a local
+// copy, the result of a function that returns such values, an element of such a
+// list, or a parameter that every caller fills that way (depth-bounded).
+func freshDescriptor(w *World, fi *FuncInfo, e ast.Expr, depth int, isDesc func(types.Type) bool) bool {
+	if depth < 0 {
+		return false
+	}
+	info := fi.Pkg.TypesInfo
+	e = unparen(e)
+	switch x := e.(type) {
+	case *ast.CompositeLit:
+		return true
+	case *ast.UnaryExpr:
+		if x.Op == token.AND {
+			if _, isLit := unparen(x.X).(*ast.CompositeLit); isLit {
+				return true
+			}
+			// &v, v a local of the struct type
+			if o, ok := objOf(info, x.X).(*types.Var); ok && !o.IsField() && isDesc(o.Type()) && !isPointerType(o.Type()) && fi.Decl.Body.Pos() <= o.Pos() && o.Pos() < fi.Decl.Body.End() {
+				return true
+			}
+		}
+		return false
+	case *ast.CallExpr:
+		if id, ok := unparen(x.Fun).(*ast.Ident); ok {
+			switch id.Name {
+			case "new", "make":
+				return true
+			case "append":
+				for i, a := range x.Args {
+					if i == 0 {
+						if isNilIdent(info, a) || freshDescriptor(w, fi, a, depth, isDesc) {
+							continue
+						}
+						return false
+					}
+					if !freshDescriptor(w, fi, a, depth, isDesc) {
+						return false
+					}
+				}
+				return true
+			}
+		}
+		cal := callee(info, x)
+		if cal == nil {
+			return false
+		}
+		if o := cal.Origin(); o != nil {
+			cal = o
+		}
+		t := w.Decls[cal]
+		if t == nil || t.Decl.Body == nil {
+			return false
+		}
+		all, any := true, false
+		ast.Inspect(t.Decl.Body, func(y ast.Node) bool {
+			if _, isLit := y.(*ast.FuncLit); isLit {
+				return false
+			}
+			if ret, ok := y.(*ast.ReturnStmt); ok && len(ret.Results) >= 1 {
+				if isNilIdent(t.Pkg.TypesInfo, ret.Results[0]) {
+					return true
+				}
+				any = true
+				if !freshDescriptor(w, t, ret.Results[0], depth-1, isDesc) {
+					all = false
+				}
+			}
+			return true
+		})
+		return all && any
+	case *ast.Ident:
+		o, ok := info.ObjectOf(x).(*types.Var)
+		if !ok || o.IsField() {
+			return false
+		}
+		// a range element: judged like the list
+		var list ast.Expr
+		ast.Inspect(fi.Decl.Body, func(y ast.Node) bool {
+			if rs, ok := y.(*ast.RangeStmt); ok && rs.Value != nil {
+				if vid, ok := rs.Value.(*ast.Ident); ok && info.Defs[vid] == o {
+					list = rs.X
+				}
+			}
+			return true
+		})
+		if list != nil {
+			return freshDescriptor(w, fi, list, depth, isDesc)
+		}
+		if isParamOrRecv(fi, info, o) {
+			idx, k := -1, 0
+			for _, f := range fi.Decl.Type.Params.List {
+				for _, nm := range f.Names {
+					if info.Defs[nm] == o {
+						idx = k
+					}
+					k++
+				}
+			}
+			if idx < 0 || fi.Obj.Exported() {
+				return false
+			}
+			n := 0
+			for caller := range w.Callers()[fi] {
+				for _, c := range callsIn(caller.Decl.Body, true) {
+					if callee(caller.Pkg.TypesInfo, c) != fi.Obj {
+						continue
+					}
+					n++
+					ai := idx
+					if ai >= len(c.Args) {
+						ai = len(c.Args) - 1 // variadic
+					}
+					if ai < 0 || !freshDescriptor(w, caller, c.Args[ai], depth-1, isDesc) {
+						return false
+					}
+				}
+			}
+			return n > 0
+		}
+		// a local: every assignment gives it a fresh value (appends onto itself included)
+		all, any := true, false
+		ast.Inspect(fi.Decl.Body, func(y ast.Node) bool {
+			switch st := y.(type) {
+			case *ast.AssignStmt:
+				if len(st.Lhs) == len(st.Rhs) {
+					for i, l := range st.Lhs {
+						if objOf(info, l) != o {
+							continue
+						}
+						any = true
+						rhs := unparen(st.Rhs[i])
+						if c, isC := rhs.(*ast.CallExpr); isC {
+							if id, isId := unparen(c.Fun).(*ast.Ident); isId && id.Name == "append" && len(c.Args) > 0 && objOf(info, c.Args[0]) == o {
+								for _, a := range c.Args[1:] {
+									if !freshDescriptor(w, fi, a, depth, isDesc) {
+										all = false
+									}
+								}
+								continue
+							}
+						}
+						if !freshDescriptor(w, fi, rhs, depth, isDesc) {
+							all = false
+						}
+					}
+				} else if len(st.Rhs) == 1 {
+					for _, l := range st.Lhs {
+						if objOf(info, l) == o {
+							any = true
+							if !freshDescriptor(w, fi, st.Rhs[0], depth, isDesc) {
+								all = false
+							}
+						}
+					}
+				}
+			case *ast.ValueSpec:
+				for i, nm := range st.Names {
+					if info.Defs[nm] == o {
+						if i < len(st.Values) {
+							any = true
+							if !freshDescriptor(w, fi, st.Values[i], depth, isDesc) {
+								all = false
+							}
+						}
+					}
+				}
+			}
+			return true
+		})
+		return all && any
+	}
+	return false
+}
+
+func isPointerType(t types.Type) bool {
+	_, ok := t.Underlying().(*types.Pointer)
+	return ok
+}
+
+// ownedLocalSlice: o is a local (not a parameter, not a field) every assignment of
+// which builds it from nothing or from itself: make / nil / a literal / a clone,
+// append onto itself, a reslice of itself, an in-place slices function applied to
+// itself. Such a slice never shares storage the function did not allocate.
+func ownedLocalSlice(fi *FuncInfo, info *types.Info, o *types.Var) bool {
+	if o.IsField() || isParamOrRecv(fi, info, o) || !(fi.Decl.Body.Pos() <= o.Pos() && o.Pos() < fi.Decl.Body.End()) {
+		return false
+	}
+	if _, isSl := o.Type().Underlying().(*types.Slice); !isSl {
+		return false
+	}
+	self := func(e ast.Expr) bool {
+		e = unparen(e)
+		if sl, ok := e.(*ast.SliceExpr); ok {
+			e = unparen(sl.X)
+		}
+		return objOf(info, e) == o
+	}
+	okAll, any := true, false
+	judge := func(rhs ast.Expr) {
+		any = true
+		rhs = unparen(rhs)
+		if isNilIdent(info, rhs) || self(rhs) {
+			return
+		}
+		if _, isLit := rhs.(*ast.CompositeLit); isLit {
+			return
+		}
+		if c, isC := rhs.(*ast.CallExpr); isC {
+			if id, isId := unparen(c.Fun).(*ast.Ident); isId && (id.Name == "make" || (id.Name == "append" && len(c.Args) > 0 && (self(c.Args[0]) || isNilIdent(info, c.Args[0])))) {
+				return
+			}
+			cal := callee(info, c)
+			if cal != nil && cal.Pkg() != nil && cal.Pkg().Path() == "slices" {
+				switch cal.Name() {
+				case "Clone", "Collect", "Sorted", "AppendSeq":
+					if cal.Name() != "AppendSeq" || len(c.Args) == 0 || self(c.Args[0]) || isNilIdent(info, c.Args[0]) {
+						return
+					}
+					if mk, isMk := unparen(c.Args[0]).(*ast.CallExpr); isMk && exprStr(mk.Fun) == "make" {
+						return
+					}
+				default:
+					if len(c.Args) > 0 && self(c.Args[0]) {
+						return
+					}
+				}
+			}
+			if tv, ok := info.Types[c.Fun]; ok && tv.IsType() && len(c.Args) == 1 && isNilIdent(info, c.Args[0]) {
+				return // []T(nil)
+			}
+		}
+		okAll = false
+	}
+	ast.Inspect(fi.Decl.Body, func(x ast.Node) bool {
+		switch st := x.(type) {
+		case *ast.AssignStmt:
+			if len(st.Lhs) == len(st.Rhs) {
+				for i, l := range st.Lhs {
+					if objOf(info, l) == o {
+						judge(st.Rhs[i])
+					}
+				}
+			} else {
+				for _, l := range st.Lhs {
+					if objOf(info, l) == o {
+						any, okAll = true, false
+					}
+				}
+			}
+		case *ast.ValueSpec:
+			for i, nm := range st.Names {
+				if info.Defs[nm] == o && i < len(st.Values) {
+					judge(st.Values[i])
+				} else if info.Defs[nm] == o {
+					any = true // var x []T
+				}
+			}
+		case *ast.RangeStmt:
+			if (st.Key != nil && objOf(info, st.Key) == o) || (st.Value != nil && objOf(info, st.Value) == o) {
+				okAll = false
+			}
+		case *ast.UnaryExpr:
+			if st.Op == token.AND && objOf(info, st.X) == o {
+				okAll = false // its address escapes
+			}
+		}
+		return true
+	})
+	return okAll && any
+}
+
+var freshSliceBusy = map[types.Object]bool{}
+
+func freshSliceExpr(w *World, fi *FuncInfo, e ast.Expr, depth int) (res bool) {
+	info := fi.Pkg.TypesInfo
+	if os.Getenv("GODICHECK_DEBUG") != "" {
+		defer func() {
+			fmt.Fprintf(os.Stderr, "freshSliceExpr %s %s depth=%d -> %v\n", fi.Name(), exprStr(e), depth, res)
+		}()
+	}
+	if isNilIdent(info, e) {
+		return true
+	}
+	// m[k] of a table this call built (a local map of slices, or one handed down from the caller that built it)
+	if ix, isIx := unparen(e).(*ast.IndexExpr); isIx {
+		if _, isMap := info.TypeOf(ix.X).Underlying().(*types.Map); isMap {
+			return freshSliceExpr(w, fi, ix.X, depth)
+		}
+	}
+	if o, isV := objOf(info, e).(*types.Var); isV && ownedLocalSlice(fi, info, o) {
+		return true
+	}
+	e = resolveLocal(info, fi.Decl.Body, e, 3)
+	if ok, _ := freshDepth(info, fi, e, 2); ok {
+		return true
+	}
+	if c, isC := e.(*ast.CallExpr); isC {
+		if id, isId := unparen(c.Fun).(*ast.Ident); isId && id.Name == "append" && len(c.Args) > 0 {
+			a0 := unparen(c.Args[0])
+			if isNilIdent(info, a0) {
+				return true
+			}
+			if cc, ok := a0.(*ast.CallExpr); ok {
+				if tv, ok := info.Types[cc.Fun]; ok && tv.IsType() {
+					return true // []T(nil)
+				}
+				if ok, _ := freshCall(info, cc, 0, 2); ok {
+					return true
+				}
+			}
+			if _, ok := a0.(*ast.CompositeLit); ok {
+				return true
+			}
+		}
+		cal := callee(info, c)
+		if isFunc(cal, "slices", "", "Collect") || isFunc(cal, "slices", "", "Sorted") || isFunc(cal, "slices", "", "AppendSeq") || isFunc(cal, "maps", "", "Keys") {
+			return true
+		}
+	}
+	if _, ok := e.(*ast.CompositeLit); ok {
+		return true
+	}
+	// a parameter of a private function: every caller hands in a slice of its own
+	if o, isV := objOf(info, e).(*types.Var); isV && depth > -3 && !fi.Obj.Exported() {
+		if pidx, isP := paramIndex(fi, info, o); isP {
+			if freshSliceBusy[o] {
+				return true // a recursive hand-down: decided by the other call sites
+			}
+			freshSliceBusy[o] = true
+			defer delete(freshSliceBusy, o)
+			n := 0
+			for caller := range w.Callers()[fi] {
+				for _, c := range callsIn(caller.Decl.Body, true) {
+					if callee(caller.Pkg.TypesInfo, c) != fi.Obj || pidx >= len(c.Args) {
+						continue
+					}
+					n++
+					if !freshSliceExpr(w, caller, c.Args[pidx], depth-1) {
+						return false
+					}
+				}
+			}
+			if n > 0 {
+				return true
+			}
+		}
+	}
+	return false
+}
+
+func paramIndex(fi *FuncInfo, info *types.Info, o types.Object) (int, bool) {
+	k := 0
+	for _, f := range fi.Decl.Type.Params.List {
+		for _, nm := range f.Names {
+			if info.Defs[nm] == o {
+				return k, true
+			}
+			k++
+		}
+	}
+	return 0, false
+}
+
+// isPureCounter: a field of an atomic integer type that the resolution path only
+// ever adds to - it is read nowhere in resolve / createInstance / setInstance and
+// their private helpers (a statistics accessor reads it). A counter carries no
+// identity: it cannot hand out, skip or remember an instance.
+func isPureCounter(w *World, fv *types.Var) bool {
+	n := namedOf(fv.Type())
+	if n == nil || n.Obj().Pkg() == nil || n.Obj().Pkg().Path() != "sync/atomic" {
+		return false
+	}
+	switch n.Obj().Name() {
+	case "Int32", "Int64", "Uint32", "Uint64", "Uintptr":
+	default:
+		return false
+	}
+	ro := resolveRoles(w)
+	path := map[*FuncInfo]bool{}
+	for _, root := range []*FuncInfo{ro.resolveTop, ro.resolve, ro.createInstance, ro.setInstance, ro.setSingleton} {
+		if root == nil {
+			continue
+		}
+		for _, f := range w.Within(root, 3) {
+			path[f] = true
+		}
+	}
+	for _, a := range collectAccessesCached(w, func(v *types.Var) bool { return v == fv }) {
+		fi := w.FuncAt(a.Pos())
+		if fi == nil || !path[fi] {
+			continue
+		}
+		if a.Kind != "method" || a.Call == nil {
+			return false
+		}
+		if sel, ok := unparen(a.Call.Fun).(*ast.SelectorExpr); !ok || sel.Sel.Name != "Add" {
+			return false
+		}
+		// the result of Add is not used either (x.Add(1) as a statement)
+		used := true
+		ast.Inspect(fi.Decl.Body, func(x ast.Node) bool {
+			if es, ok := x.(*ast.ExprStmt); ok && unparen(es.X) == ast.Expr(a.Call) {
+				used = false
+			}
+			return true
+		})
+		if used {
+			return false
+		}
+	}
+	return true
 }
